@@ -135,6 +135,117 @@ class Inliner:
             return None, None
         return key, json.loads(raw)
 
+    # ---- Option / Result / bool combinators that take a *new* closure are spelled out as the match they stand for -------------------
+    COMB = {
+        # name regex -> (adt, [(variant, what the arm stores in dest)])   a = payload of the matched variant, f = closure
+        r"option::Option::or_else$": ("O", {"Some": ("self",), "None": ("call", [])}),
+        r"option::Option::map$": ("O", {"Some": ("wrap", "Some", ("call", ["a"])), "None": ("agg", "None")}),
+        r"option::Option::and_then$": ("O", {"Some": ("call", ["a"]), "None": ("agg", "None")}),
+        r"option::Option::unwrap_or_else$": ("O", {"Some": ("a",), "None": ("call", [])}),
+        r"option::Option::ok_or_else$": ("O", {"Some": ("wrapr", "Ok", ("a",)), "None": ("wrapr", "Err", ("call", []))}),
+        r"option::Option::is_some_and$": ("O", {"Some": ("call", ["a"]), "None": ("false",)}),
+        r"option::Option::filter$": None,
+        r"result::Result::map$": ("R", {"Ok": ("wrapr", "Ok", ("call", ["a"])), "Err": ("wrapr", "Err", ("a",))}),
+        r"result::Result::map_err$": ("R", {"Ok": ("wrapr", "Ok", ("a",)), "Err": ("wrapr", "Err", ("call", ["a"]))}),
+        r"result::Result::and_then$": ("R", {"Ok": ("call", ["a"]), "Err": ("wrapr", "Err", ("a",))}),
+        r"result::Result::or_else$": ("R", {"Ok": ("wrapr", "Ok", ("a",)), "Err": ("call", ["a"])}),
+        r"result::Result::unwrap_or_else$": ("R", {"Ok": ("a",), "Err": ("call", ["a"])}),
+    }
+
+    def _closure_key_of(self, o):
+        """key of the new closure that operand o holds (`o = {closure} agg`), else None"""
+        p = _op_place(o)
+        if p is None or len(p) != 1:
+            return None
+        defs = [st for b in self.rec["blocks"] if not b.get("cleanup") for st in b["stmts"] if st["lhs"] == p]
+        if len(defs) != 1 or defs[0]["rv"]["r"] != "agg" or defs[0]["rv"].get("adt") != "{closure}":
+            return None
+        key = defs[0]["rv"].get("closure")
+        key = self.fx._alias.get(norm(key), key)
+        return key if key in self.new and key in self.fx._raw else None
+
+    def _desugar(self, i, spec, key):
+        rec = self.rec
+        b = rec["blocks"][i]
+        t = b["term"]
+        kind, arms = spec
+        recv, clos = t["args"][0], t["args"][-1]
+        rp = _op_place(recv)
+        if rp is None or len(t["args"]) != 2:
+            return False
+        crec = json.loads(self.fx._raw[key])
+        ln = t.get("ln", 0)
+        meta = self.meta[i]
+
+        def new_local(ty):
+            rec["locals"].append(ty)
+            return len(rec["locals"]) - 1
+
+        def new_block(stmts, term):
+            rec["blocks"].append({"cleanup": False, "stmts": stmts, "term": term})
+            self.meta[len(rec["blocks"]) - 1] = meta
+            return len(rec["blocks"]) - 1
+        adt = "std::option::Option" if kind == "O" else "std::result::Result"
+        vars_ = {"0": "None", "1": "Some"} if kind == "O" else {"0": "Ok", "1": "Err"}
+        d = new_local("isize")
+        targets = []
+        for idx, vn in sorted(vars_.items()):
+            what = arms[vn]
+            stmts = []
+            payload = {"m": rp + ["@" + vn, ".0"]}
+
+            def value(w, stmts):
+                # -> (operand, pending call or None)
+                if w[0] == "self":
+                    return {"m": rp}, None
+                if w[0] == "a":
+                    return payload, None
+                if w[0] == "false":
+                    return {"k": {"ty": "bool", "v": 0}}, None
+                if w[0] == "agg":
+                    l = new_local(adt)
+                    stmts.append({"lhs": [l], "rv": {"r": "agg", "adt": adt, "var": w[1], "fields": [], "ops": []}, "ln": ln, "ex": None, "inl": "comb"})
+                    return {"m": [l]}, None
+                if w[0] == "call":
+                    tup = new_local("(tuple)")
+                    stmts.append({"lhs": [tup], "rv": {"r": "agg", "adt": "(tuple)", "ops": [payload] if w[1] else []}, "ln": ln, "ex": None, "inl": "comb"})
+                    r = new_local(crec.get("ret", "?"))
+                    return {"m": [r]}, (tup, r)
+                if w[0] in ("wrap", "wrapr"):
+                    inner, call = value(w[2], stmts)
+                    return ("wrapped", w[1], inner), call
+                return None, None
+            val, call = value(what, stmts)
+            tail = []
+            if isinstance(val, tuple):
+                tail.append({"lhs": t["dest"], "rv": {"r": "agg", "adt": adt if what[0] == "wrap" else "std::result::Result", "var": val[1], "fields": ["0"], "ops": [val[2]]},
+                             "ln": ln, "ex": None, "inl": "comb"})
+            else:
+                tail.append({"lhs": t["dest"], "rv": {"r": "use", "o": val}, "ln": ln, "ex": None, "inl": "comb"})
+            # what the arm is known to store: lets the caller's `match` / `?` on the result be specialised for this arm
+            known = None
+            if what[0] == "self":
+                known = [vn]
+            elif what[0] in ("wrap", "wrapr", "agg"):
+                known = [what[1]]
+            elif what[0] == "false":
+                known = ["false"]
+            cont = t["t"]
+            if known is not None and len(t["dest"]) == 1:
+                cont = self._specialise(t["t"], {t["dest"][0]: known}, meta)
+            if call is None:
+                bi = new_block(stmts + tail, {"k": "goto", "t": cont, "ln": ln, "ex": None})
+            else:
+                tup, r = call
+                after = new_block(tail, {"k": "goto", "t": cont, "ln": ln, "ex": None})
+                bi = new_block(stmts, {"k": "call", "f": {"def": key, "res": key, "local": True, "res_local": True, "args": []},
+                                       "args": [clos, {"m": [tup]}], "dest": [r], "t": after, "fln": ln, "ln": ln, "ex": None})
+            targets.append([int(idx), bi])
+        b["stmts"].append({"lhs": [d], "rv": {"r": "discr", "p": rp, "adt": adt, "vars": vars_}, "ln": ln, "ex": None, "inl": "comb"})
+        b["term"] = {"k": "switch", "o": {"m": [d]}, "targets": targets[:-1] if False else targets, "otherwise": targets[-1][1], "ln": ln, "ex": t.get("ex"), "inl_comb": _callee_name(t)}
+        self.done.append("combinator:" + (_callee_name(t) or "?"))
+        return True
+
     def run(self):
         rec = self.rec
         i = 0
@@ -144,6 +255,15 @@ class Inliner:
             if t["k"] == "call" and not b.get("cleanup") and t.get("t") is not None and len(rec["blocks"]) < MAX_BLOCKS:
                 name = _callee_name(t)
                 depth, stack = self.meta[i]
+                if name is not None and len(t["args"]) == 2:
+                    spec = None
+                    for rx, sp in self.COMB.items():
+                        if sp is not None and re.search(rx, name):
+                            spec = sp
+                    if spec is not None:
+                        ck = self._closure_key_of(t["args"][1])
+                        if ck is not None and self._desugar(i, spec, ck):
+                            continue
                 if name is not None:
                     key, crec = self._callee_rec(name)
                     if crec is not None and key not in stack and depth < MAX_DEPTH:
@@ -498,7 +618,7 @@ def inline_new(fx, key, rec, new_fns):
     s = fx.sums.get(key)
     if s is not None:
         names = {norm(r or d) for d, r in s.get("calls", []) if (r or d)}
-        if not any(fx._alias.get(n, n) in new_fns for n in names):
+        if not any(fx._alias.get(n, n) in new_fns for n in names) and not any(k.startswith(key + "::{closure") for k in new_fns):
             return rec
     out = Inliner(fx, key, rec, new_fns).run()
     return out if out.get("inlined") else rec
